@@ -35,6 +35,10 @@ func (i *JsByte) UnmarshalJSON(b []byte) error {
 		return ErrInvalidByteJs
 	}
 
+	if b[0] != '"' || b[lb-1] != '"' {
+		return ErrInvalidByteJs
+	}
+
 	strBuf := string(b[1 : lb-1])
 	return i.FromString(strBuf)
 }
